@@ -161,3 +161,66 @@ func vpH_C11_spans_reconcile_int() {
 	}
 	vpReach("reconciled")
 }
+
+// Gauge reconciliation: expanding a with the forward inserts and b with the backward inserts gives two
+// bucket lists over the merged layout = union of both index sets, every original bucket keeps its count,
+// every inserted bucket is empty - for arbitrary (also decreasing) counts.
+func vpH_C11_spans_bothways() {
+	a, aIdx := vpXLayout("a")
+	b, bIdx := vpXLayout("b")
+	aAbs, aDeltas := vpXCounts(len(aIdx))
+	bAbs, bDeltas := vpXCounts(len(bIdx))
+	fwd, bwd, merged := expandSpansBothWays(a, b)
+	vpObserve("nfwd", len(fwd))
+	vpObserve("nbwd", len(bwd))
+	mIdx := vpXSpanIdxs(merged)
+	for _, idx := range aIdx {
+		vpAssert(vpXIndexOf(mIdx, idx) >= 0, "merged layout contains every bucket of a")
+	}
+	for _, idx := range bIdx {
+		vpAssert(vpXIndexOf(mIdx, idx) >= 0, "merged layout contains every bucket of b")
+	}
+	for k, idx := range mIdx {
+		vpAssert(vpXIndexOf(aIdx, idx) >= 0 || vpXIndexOf(bIdx, idx) >= 0, "merged layout contains nothing else")
+		if k > 0 {
+			vpAssert(mIdx[k-1] < idx, "merged layout strictly increasing")
+		}
+	}
+	nIns := func(ins []Insert) int {
+		n := 0
+		for _, in := range ins {
+			n += in.num
+		}
+		return n
+	}
+	vpAssert(len(aDeltas)+nIns(fwd) == len(mIdx), "forward inserts fill a up to the merged layout")
+	vpAssert(len(bDeltas)+nIns(bwd) == len(mIdx), "backward inserts fill b up to the merged layout")
+	if len(aDeltas)+nIns(fwd) != len(mIdx) || len(bDeltas)+nIns(bwd) != len(mIdx) {
+		return
+	}
+	newA := vpXAbsOf(insert(aDeltas, make([]int64, len(mIdx)), fwd, true))
+	newB := vpXAbsOf(insert(bDeltas, make([]int64, len(mIdx)), bwd, true))
+	for k, idx := range mIdx {
+		vpObserve("newA", newA[k])
+		if i := vpXIndexOf(aIdx, idx); i >= 0 {
+			vpAssert(newA[k] == aAbs[i], "bucket of a keeps its count")
+		} else {
+			vpAssert(newA[k] == 0, "inserted bucket of a is empty")
+		}
+		if j := vpXIndexOf(bIdx, idx); j >= 0 {
+			vpAssert(newB[k] == bAbs[j], "bucket of b keeps its count")
+		} else {
+			vpAssert(newB[k] == 0, "inserted bucket of b is empty")
+		}
+	}
+	// the same inserts applied to absolute (float-chunk style) values
+	newAf := insert(aAbs, make([]int64, len(mIdx)), fwd, false)
+	for k, idx := range mIdx {
+		if i := vpXIndexOf(aIdx, idx); i >= 0 {
+			vpAssert(newAf[k] == aAbs[i], "bucket of a keeps its count (absolute values)")
+		} else {
+			vpAssert(newAf[k] == 0, "inserted bucket of a is empty (absolute values)")
+		}
+	}
+	vpReach("reconciled")
+}
